@@ -12,10 +12,9 @@ import (
 	"time"
 
 	"github.com/cenkalti/rain/v2/internal/storage"
+	"github.com/cenkalti/rain/v2/verifx/evlog"
 )
 
-// Seq is the process-wide sequence counter shared by all recorders.
-var Seq atomic.Int64
 
 type Event struct {
 	Seq   int64
@@ -95,7 +94,7 @@ func (s *Store) RootDir() string { return s.root }
 
 func (s *Store) ev(e Event) {
 	if s.p.Hooks.OnEvent != nil {
-		e.Seq = Seq.Add(1)
+		e.Seq = evlog.Next()
 		e.Store = s.ID
 		s.p.Hooks.OnEvent(e)
 	}
